@@ -133,13 +133,13 @@ func ModRMByOperand(modeStr string, regOperand string, rmOperand string, bitMode
 		}
 
 		// --- ModR/M and Displacement Calculation ---
-		modrmByte, sibByte, dispBytes, err := calculateModRM(memInfo, bitMode, regBits) // Pass regBits for context
+		modrmByte, sibByte, hasSIB, dispBytes, err := calculateModRM(memInfo, bitMode, regBits) // Pass regBits for context
 		if err != nil {
 			return nil, fmt.Errorf("failed to calculate ModR/M for '%s': %w", rmOperand, err)
 		}
 
 		out := []byte{modrmByte}
-		if sibByte != 0 { // Check if SIB byte is present
+		if hasSIB { // SIB = 0x00 ([EAX+EAX]) is a valid SIB byte, so its value cannot tell whether it is present
 			out = append(out, sibByte)
 		}
 		if len(dispBytes) > 0 {
@@ -194,14 +194,14 @@ func ModRMByValue(modeStr string, regValue int, rmOperand string, bitMode cpu.Bi
 		}
 
 		// --- ModR/M and Displacement Calculation ---
-		modrmByte, sibByte, dispBytes, err := calculateModRM(memInfo, bitMode, regBits) // Pass regBits for context
+		modrmByte, sibByte, hasSIB, dispBytes, err := calculateModRM(memInfo, bitMode, regBits) // Pass regBits for context
 		if err != nil {
 			log.Printf("error: Failed to calculate ModR/M for '%s' in ModRMByValue: %v", rmOperand, err)
 			return []byte{0} // Consider returning error
 		}
 
 		out := []byte{modrmByte}
-		if sibByte != 0 { // Check if SIB byte is present
+		if hasSIB { // SIB = 0x00 ([EAX+EAX]) is a valid SIB byte, so its value cannot tell whether it is present
 			out = append(out, sibByte)
 		}
 		if len(dispBytes) > 0 {
@@ -231,7 +231,7 @@ func ModRMByValue(modeStr string, regValue int, rmOperand string, bitMode cpu.Bi
 // calculateModRM は MemoryInfo から ModR/M, SIB, Displacement を計算する
 // regBits は ModR/M の reg フィールド (ビット3-5)
 // TODO: SIBバイトの処理を実装する
-func calculateModRM(mem *ng_operand.MemoryInfo, bitMode cpu.BitMode, regBits byte) (modrmByte byte, sibByte byte, dispBytes []byte, err error) {
+func calculateModRM(mem *ng_operand.MemoryInfo, bitMode cpu.BitMode, regBits byte) (modrmByte byte, sibByte byte, hasSIB bool, dispBytes []byte, err error) {
 	var mod byte
 	var rm byte
 	disp := mem.Displacement
@@ -294,7 +294,7 @@ func calculateModRM(mem *ng_operand.MemoryInfo, bitMode cpu.BitMode, regBits byt
 				goto calculate_32bit_addressing
 			}
 			// Original default case for unsupported 16-bit modes
-			return 0, 0, nil, fmt.Errorf("unsupported 16-bit addressing mode: Base=%s, Index=%s", mem.BaseReg, mem.IndexReg)
+			return 0, 0, false, nil, fmt.Errorf("unsupported 16-bit addressing mode: Base=%s, Index=%s", mem.BaseReg, mem.IndexReg)
 		}
 
 		// Adjust mod if displacement exists but mod is currently 00 (except for direct address)
@@ -316,7 +316,7 @@ func calculateModRM(mem *ng_operand.MemoryInfo, bitMode cpu.BitMode, regBits byt
 			}
 		}
 		modrmByte = mod | regBits | rm
-		return modrmByte, sibByte, dispBytes, nil
+		return modrmByte, sibByte, false, dispBytes, nil
 	}
 
 calculate_32bit_addressing: // Label for the 32-bit logic start
@@ -354,7 +354,7 @@ calculate_32bit_addressing: // Label for the 32-bit logic start
 	case mem.BaseReg == "EDI" && mem.IndexReg == "":
 		rm = 0b111
 	default:
-		return 0, 0, nil, fmt.Errorf("unsupported 32-bit addressing mode: Base=%s, Index=%s", mem.BaseReg, mem.IndexReg)
+		return 0, 0, false, nil, fmt.Errorf("unsupported 32-bit addressing mode: Base=%s, Index=%s", mem.BaseReg, mem.IndexReg)
 	}
 
 	// Adjust mod if displacement exists but mod is currently 00 (except for direct address and [EBP] cases)
@@ -381,7 +381,7 @@ calculate_32bit_addressing: // Label for the 32-bit logic start
 			scale = 0b11000000
 		default:
 			if mem.Scale != 0 { // Allow scale 0 if index is not present
-				return 0, 0, nil, fmt.Errorf("invalid SIB scale: %d", mem.Scale)
+				return 0, 0, false, nil, fmt.Errorf("invalid SIB scale: %d", mem.Scale)
 			}
 			scale = 0b00000000 // Default to scale 1 if scale is 0 or index is empty
 		}
@@ -389,11 +389,11 @@ calculate_32bit_addressing: // Label for the 32-bit logic start
 		var indexNum int = 4 // Default to index=none (ESP encoding)
 		if mem.IndexReg != "" {
 			if mem.IndexReg == "ESP" {
-				return 0, 0, nil, fmt.Errorf("ESP cannot be used as an index register in SIB")
+				return 0, 0, false, nil, fmt.Errorf("ESP cannot be used as an index register in SIB")
 			}
 			indexNum, err = GetRegisterNumber(mem.IndexReg)
 			if err != nil {
-				return 0, 0, nil, fmt.Errorf("invalid index register in SIB: %s", mem.IndexReg)
+				return 0, 0, false, nil, fmt.Errorf("invalid index register in SIB: %s", mem.IndexReg)
 			}
 		}
 
@@ -401,7 +401,7 @@ calculate_32bit_addressing: // Label for the 32-bit logic start
 		if mem.BaseReg != "" {
 			baseNum, err = GetRegisterNumber(mem.BaseReg)
 			if err != nil {
-				return 0, 0, nil, fmt.Errorf("invalid base register in SIB: %s", mem.BaseReg)
+				return 0, 0, false, nil, fmt.Errorf("invalid base register in SIB: %s", mem.BaseReg)
 			}
 		}
 
@@ -456,7 +456,7 @@ calculate_32bit_addressing: // Label for the 32-bit logic start
 	}
 
 	modrmByte = mod | regBits | rm
-	return modrmByte, sibByte, dispBytes, nil
+	return modrmByte, sibByte, needsSIB, dispBytes, nil
 }
 
 // GetRegisterNumber はレジスタ名からレジスタ番号（0-7）を取得する
